@@ -181,6 +181,21 @@ def fam_argv(seed, big):
                     sc["setgid"] = g
                 out.append(sc)
                 i += 1
+    # a working directory only the parent may enter (0700, owned by root) together with an unprivileged identity: the
+    # directory is entered before the identity is given up
+    if ids_ok:
+        priv = os.path.join(SP, "private-cwd")
+        os.makedirs(priv, exist_ok=True)
+        os.chmod(priv, 0o700)
+        for (u, g, pg) in ((12345, 23456, False), (12345, None, True), (None, 23456, False)):
+            sc = {"id": "a-idcwd%d" % i, "class": "identity-private-cwd", "argv": vargv(), "setpgid": pg, "cwd": hx(priv)}
+            if u is not None:
+                sc["setuid"] = u
+            if g is not None:
+                sc["setgid"] = g
+            out.append(sc)
+            i += 1
+    # NUL anywhere: rejected, nothing started
     nul = [
         {"argv": vargv(b"a\0b")}, {"argv": [hx(VCHILD + "\0x")]}, {"argv": vargv(b"ok", b"\0")},
         {"argv": vargv(), "env": [[hx("A\0"), hx("1")]]}, {"argv": vargv(), "env": [[hx("A"), hx("1\0 2")]]},
@@ -302,6 +317,17 @@ def fam_leak(seed, big):
                 out.append({"id": "l%d" % i, "class": "leak", "argv": vargv(), "stdin": a, "stdout": b, "stderr": c,
                             "earlier": earlier, "thread": thr, "repeat": rng.choice([1, 2, 3])})
                 i += 1
+    # a hand-made pipeline: the reading end of a living Popen's stdout pipe is passed as the next command's stdin, from a
+    # configuration of which a clone (a template kept for later) is alive during the launch
+    for (b, c) in (("pipe", "none"), ("none", "none"), ("pipe", "merge")):
+        for keep in (False, True):
+            out.append({"id": "l%d" % i, "class": "leak-clone-kept" if keep else "leak-handmade-pipeline", "argv": vargv(),
+                        "stdin": "file:@earlier", "stdout": b, "stderr": c, "earlier": 1, "clone_keep": keep})
+            i += 1
+    for (a, b, c) in (("file:i", "file:o", "none"), ("dup:S", "pipe", "dup:S")):
+        out.append({"id": "l%d" % i, "class": "leak-clone-kept", "argv": vargv(), "stdin": a, "stdout": b, "stderr": c,
+                    "earlier": 1, "clone_keep": True})
+        i += 1
     # the same with standard descriptors of the parent closed: pipe ends of the library (of this launch and of the
     # earlier, still living Popens) are created on -- and moved away from -- the numbers 0-2
     for closed in ([0], [0, 1], [0, 1, 2]):
